@@ -309,6 +309,22 @@ class DataFrameSchemaBackend(PolarsSchemaBackend):
         ):
             return check_obj
 
+        # a regex pattern that matches nothing is not a column that could be
+        # added (the pandas backend rejects it in the same way)
+        for col_name in column_info.absent_column_names:
+            if schema.columns[col_name].regex:
+                raise SchemaError(
+                    schema=schema,
+                    data=check_obj,
+                    message=(
+                        f"Column regex name='{col_name}' did not match any "
+                        "columns in the dataframe"
+                    ),
+                    failure_cases=col_name,
+                    check=f"no_regex_column_match('{col_name}')",
+                    reason_code=SchemaErrorReason.INVALID_COLUMN_NAME,
+                )
+
         # Absent columns are required to have a default value or be nullable
         for col_name in column_info.absent_column_names:
             col_schema = schema.columns[col_name]
